@@ -244,6 +244,41 @@ fn history() {
     witness("end");
 }
 
+/// found missing by seed C11e: an address generator that can propose an address twice (one address
+/// per code id).  The second unsalted instantiation must be rejected as a duplicate and leave the first
+/// contract's record and storage untouched.
+struct PerCode;
+impl cw_multi_test::AddressGenerator for PerCode {
+    fn contract_address(&self, _api: &dyn cosmwasm_std::Api, _storage: &mut dyn cosmwasm_std::Storage, code_id: u64, _instance_id: u64) -> cw_multi_test::error::AnyResult<Addr> {
+        Ok(Addr::unchecked(format!("contract-of-code-{}", code_id)))
+    }
+}
+fn generator_repeating_an_address() {
+    let mut app = AppBuilder::new().with_wasm(cw_multi_test::WasmKeeper::new().with_address_generator(PerCode)).build(|_, _, _| {});
+    let (user, other) = (addr("user"), addr("other"));
+    let c1 = app.store_code(sc::contract());
+    let c2 = app.store_code(sc::contract_v2());
+    let a1 = app.instantiate_contract(c1, user.clone(), &Script::new().write("m", "first"), &[], "first", Some(user.to_string())).unwrap();
+    let a2 = app.instantiate_contract(c2, user.clone(), &Script::new().write("m", "second"), &[], "second", None).unwrap();
+    check_native("new_address_is_fresh", a1 != a2, || format!("{} {}", a1, a2));
+    let before = snapshot(&app);
+    let which = [c1, c2][choose(2)];
+    let r = catch(|| app.instantiate_contract(which, other.clone(), &Script::new().write("m", "intruder"), &[], "again", Some(other.to_string())));
+    match r {
+        Err(p) => failure("no_panic", "panic", p),
+        Ok(Ok(a)) => {
+            check_native("instantiation_at_an_occupied_address_rejected", false, || format!("succeeded at {}", a));
+        }
+        Ok(Err(_)) => {
+            witness("duplicate_rejected");
+            check_unchanged("rejected_requests_leave_state_unchanged", &app, &before);
+        }
+    }
+}
+
 pub fn scenarios(_tier: &str) -> Vec<Scenario> {
-    vec![Scenario::new("ids_addresses_histories", &["instantiated", "migrated", "rolled_back", "end"], history)]
+    vec![
+        Scenario::new("ids_addresses_histories", &["instantiated", "migrated", "rolled_back", "end"], history),
+        Scenario::new("address_generator_proposing_an_occupied_address", &["duplicate_rejected"], generator_repeating_an_address),
+    ]
 }
